@@ -43,9 +43,10 @@ def run_impl(cases, tag):
     return json.load(open(outp))
 
 
-def run_check(pid, units, tier, seed, props_file=None, default_imports='', level_note=''):
+def run_check(pid, units, tier, seed, props_files=None, default_imports='', level_note=''):
     t0 = time.time()
-    props_file = props_file or pid
+    props_files = props_files or [pid]
+    props_file = '+'.join(props_files)
     log = []
     violations = []     # (unit, replay_path, found_input: bool)
     known = [k for k in C.known_findings() if k['property'] == pid]
@@ -53,7 +54,7 @@ def run_check(pid, units, tier, seed, props_file=None, default_imports='', level
     with C.Lock():
         ok_gen, index, genlog = C.regenerate()
         bad = C.forbidden_scan()
-        targets = [f'theories/Props/{props_file}.vo', 'theories/Lib/Enc.vo']
+        targets = [f'theories/Props/{pf}.vo' for pf in props_files] + ['theories/Lib/Enc.vo']
         for sub in ('Corr', 'Spec'):
             dd = os.path.join(C.COQ, 'theories', sub)
             if os.path.isdir(dd):
@@ -61,7 +62,12 @@ def run_check(pid, units, tier, seed, props_file=None, default_imports='', level
         ok_make, makelog, dt_make = C.make(targets)
         ok_props, assumptions, plog, thm_names = (False, {}, '', [])
         if ok_make and not bad:
-            ok_props, assumptions, plog, thm_names = C.compile_props(props_file)
+            ok_props = True
+            for (okp, asm, pl, names) in C.compile_props_many(props_files):
+                ok_props = ok_props and okp
+                assumptions.update(asm)
+                plog += pl
+                thm_names += names
     # ---- obligations
     all_thms = []
     for u in units:
@@ -86,7 +92,7 @@ def run_check(pid, units, tier, seed, props_file=None, default_imports='', level
                  ([f for f in failed_files if f.startswith('gen/') or '/Lib/' in f or '/Spec/' in f])
             if pf or not failed_files:
                 st, why = 'failed', f'does not compile: {sorted(pf) or "build error"}'
-            elif any(f.endswith(f'Props/{props_file}.v') for f in failed_files):
+            elif any(f.endswith(f'Props/{pf}.v') for f in failed_files for pf in props_files):
                 st, why = 'failed', 'Props file does not compile'
             else:
                 # some other unit's proof file broke; this unit's own files compiled
@@ -114,35 +120,37 @@ def run_check(pid, units, tier, seed, props_file=None, default_imports='', level
     samples = []
     distinct = set()
     mismatches = []     # dicts
+    all_cases = []      # (unit, case)
     for u in units:
         if u.cases is None:
             continue
-        cases = u.cases(rng, tier)
-        if not cases:
-            continue
-        impl = run_impl([c['impl'] for c in cases], f'{pid}_{u.name}')
-        imports = u.imports or default_imports
+        for c in (u.cases(rng, tier) or []):
+            all_cases.append((u, c))
+    if all_cases:
+        impl = run_impl([c['impl'] for (_, c) in all_cases], pid)
         model_ok = ok_gen and ok_make_gen(makelog, failed_files)
-        mterms = [c['model'] for c in cases]
-        sterms = [c['spec'] for c in cases]
-        mres = C.coq_eval([t for t in mterms if t], imports, f'{pid}_{u.name}_m') if (model_ok and any(mterms)) else None
-        sres = C.coq_eval([t for t in sterms if t], u.spec_imports or imports, f'{pid}_{u.name}_s') if any(sterms) else None
-        mi = si = 0
-        for c, ir in zip(cases, impl):
+        # group terms by import header so that each group is evaluated by a few parallel coqc runs
+        mres = [None] * len(all_cases)
+        sres = [None] * len(all_cases)
+        for which, store in (('model', mres), ('spec', sres)):
+            if which == 'model' and not model_ok:
+                continue
+            groups = {}
+            for i, (u, c) in enumerate(all_cases):
+                if c[which]:
+                    imp = (u.imports or default_imports) if which == 'model' else (u.spec_imports or u.imports or default_imports)
+                    groups.setdefault(imp, []).append(i)
+            for gi, (imp, idxs) in enumerate(groups.items()):
+                res = C.coq_eval([all_cases[i][1][which] for i in idxs], imp, f'{pid}_{which}{gi}')
+                for i, r in zip(idxs, res):
+                    store[i] = r
+        for k, ((u, c), ir) in enumerate(zip(all_cases, impl)):
             corr['cases'] += 1
             key = c.get('label', u.name)
             corr['distribution'][key] = corr['distribution'].get(key, 0) + 1
             if c.get('nontrivial', True):
                 distinct.add(json.dumps(c['impl'], sort_keys=True))
-            mr = sr = None
-            if c['model']:
-                if mres is not None:
-                    mr = mres[mi]
-                mi += 1
-            if c['spec']:
-                if sres is not None:
-                    sr = sres[si]
-                si += 1
+            mr, sr = mres[k], sres[k]
             if ir and ir[0] == 'HARNESS-ERROR':
                 mismatches.append({'unit': u.name, 'kind': 'harness', 'case': c['impl'], 'impl': ir})
                 continue
@@ -155,6 +163,8 @@ def run_check(pid, units, tier, seed, props_file=None, default_imports='', level
                 corr['impl_vs_model_disagreements'] += 1
                 mismatches.append({'unit': u.name, 'kind': 'impl-vs-model', 'case': c['impl'], 'impl': ir, 'model': mr,
                                    'model_term': c['model']})
+            if c['spec'] and sr is None:
+                corr['spec_unavailable'] = corr.get('spec_unavailable', 0) + 1
             if sr is not None and sr != ir:
                 corr['impl_vs_spec_disagreements'] += 1
                 mismatches.append({'unit': u.name, 'kind': 'impl-vs-spec', 'case': c['impl'], 'impl': ir, 'spec': sr,
@@ -223,7 +233,8 @@ def run_check(pid, units, tier, seed, props_file=None, default_imports='', level
     wall = time.time() - t0
     cov = {
         'obligations': obligations, 'discharged': discharged,
-        'checker_cmd': f'cd coq && make -f Makefile.coq theories/Props/{props_file}.vo && coqc -Q theories ArmV -Q gen Gen theories/Props/{props_file}.v  (Print Assumptions under every theorem)',
+        'checker_cmd': 'cd coq && make -f Makefile.coq ' + ' '.join(f'theories/Props/{pf}.vo' for pf in props_files) +
+                       ' && coqc -Q theories ArmV -Q gen Gen theories/Props/<file>.v  (Print Assumptions under every theorem)',
         'trusted_base': C.TRUSTED_BASE + ([level_note] if level_note else []),
         'units': unit_status,
         'assumptions_per_theorem': assumptions,
